@@ -52,6 +52,7 @@ type c09Case struct {
 	seekOut []c09Pos
 	seekEOF int
 	planReq string // request for the Lean mirror of the planner (set by c09Run)
+	factKey, factWhat string // a violated hypothesis of the planner theorems (set by c09Run)
 }
 
 func (c *c09Case) sortCols() int {
@@ -860,6 +861,10 @@ func c09Run(c *c09Case) (out []c09Row, kind string, calls [][2]int, plan string,
 			c.planReq = "merge.plan " + c09StrictCuts() + " " + c09SpecText(c.Cols[:c.sortCols()]) + " " + ts
 		}
 	}
+	c.factKey, c.factWhat = "", ""
+	if total <= 6000 && (total+len(c.Batches))%2 == 0 {
+		c.factKey, c.factWhat = c09PlannerFacts(c, schema, msort, tops)
+	}
 	merged, e := parquet.MergeRowGroups(tops, opts...)
 	if e != nil {
 		return nil, "", nil, "", fmt.Errorf("MergeRowGroups: %w", e)
@@ -921,6 +926,87 @@ func c09Run(c *c09Case) (out []c09Row, kind string, calls [][2]int, plan string,
 		return out, kind, calls, plan, nil
 	}
 	return nil, kind, nil, plan, fmt.Errorf("unknown path %q", c.Path)
+}
+
+// ---------------------------------------------------------------- hypotheses of the planner theorems
+
+// c09PlannerFacts checks, on the real inputs of the outermost merge, what the Lean theorems about the
+// planner assume of a row group: its range bounds every row its Rows() deliver (range validity:
+// PagesOk / CoveredBy behind rowGroupRange), and its cut lookups are conservative for the keys the
+// planner may ask about (the bounds of the row groups of the merge): every row at or after
+// cutAbove(key) is strictly after key, every row before cutBelow(key) strictly before. A row group
+// whose page index does not describe the order of its Rows() (a merged row group was one) fails here
+// whether or not a particular merge happens to come out unsorted.
+func c09PlannerFacts(c *c09Case, schema *parquet.Schema, msort []parquet.SortingColumn, tops []parquet.RowGroup) (key, what string) {
+	cmp := schema.Comparator(msort...)
+	type bound struct{ lo, hi parquet.Row }
+	bounds := make([]*bound, len(tops))
+	for i, rg := range tops {
+		if rg.NumRows() == 0 {
+			continue
+		}
+		lo, hi, err := parquet.VerifRowGroupRange(rg, schema, msort)
+		if err == nil {
+			bounds[i] = &bound{lo, hi}
+		}
+	}
+	for i, rg := range tops {
+		n := int(rg.NumRows())
+		if bounds[i] == nil || n > 5000 {
+			continue
+		}
+		var rows []parquet.Row
+		rr := rg.Rows()
+		buf := make([]parquet.Row, 64)
+		for {
+			m, err := rr.ReadRows(buf)
+			for _, row := range buf[:m] {
+				rows = append(rows, row.Clone())
+			}
+			if err != nil {
+				break
+			}
+		}
+		rr.Close()
+		if len(rows) != n {
+			continue // reported by the main oracle
+		}
+		for r, row := range rows {
+			if cmp(bounds[i].lo, row) > 0 || cmp(row, bounds[i].hi) > 0 {
+				return "planner-range-excludes-row", fmt.Sprintf("input %d of the outermost merge (%s, %d rows): row %d lies outside the range rowGroupRangeOfSortedColumns computed for it", i, parquet.VerifMergeKind(rg), n, r)
+			}
+		}
+		above, below := parquet.VerifCutLookups(rg, schema, msort)
+		if above == nil || below == nil {
+			continue
+		}
+		for j, b := range bounds {
+			if b == nil {
+				continue
+			}
+			for side, k := range []parquet.Row{b.lo, b.hi} {
+				if a := int(above(k)); a < 0 || a > n {
+					return "planner-cut-out-of-range", fmt.Sprintf("input %d: cutAbove(bound %d/%d) = %d of %d rows", i, j, side, a, n)
+				} else {
+					for r := a; r < n; r++ {
+						if cmp(rows[r], k) <= 0 {
+							return "planner-cutabove-not-conservative", fmt.Sprintf("input %d (%d rows): cutAbove(bound %d/%d) = %d but row %d is not after the key", i, n, j, side, a, r)
+						}
+					}
+				}
+				if bl := int(below(k)); bl < 0 || bl > n {
+					return "planner-cut-out-of-range", fmt.Sprintf("input %d: cutBelow(bound %d/%d) = %d of %d rows", i, j, side, bl, n)
+				} else {
+					for r := 0; r < bl; r++ {
+						if cmp(rows[r], k) >= 0 {
+							return "planner-cutbelow-not-conservative", fmt.Sprintf("input %d (%d rows): cutBelow(bound %d/%d) = %d but row %d is not before the key", i, n, j, side, bl, r)
+						}
+					}
+				}
+			}
+		}
+	}
+	return "", ""
 }
 
 // ---------------------------------------------------------------- L1 oracle
@@ -1096,6 +1182,10 @@ func c09Check(ctx *core.Ctx, c *c09Case, p *c09Pending) {
 					"case": canon[:min(len(canon), 3000)], "request": req[:min(len(req), 6000)], "impl": want, "model": ans})
 			}
 		})
+	}
+	if c.factKey != "" {
+		// obligation: an assumed hypothesis of the planner theorems does not hold of a real row group
+		ctx.Fail("L2", c.factKey, c.factWhat, map[string]any{"case": canon[:min(len(canon), 3000)], "plan": kind})
 	}
 	if err != nil && strings.HasPrefix(err.Error(), "hang:") {
 		ctx.Fail("L1", "seek-forward-beyond-buffer-hangs plan="+kind, "SeekToRow forward by more than the read buffer, then ReadRows: "+err.Error(), detail())
@@ -2009,6 +2099,16 @@ func c09ZeroChecks(ctx *core.Ctx, r *rand.Rand, d *drv.Driver, p *c09Pending, n 
 			if k == 3 && j == 0 && r.Intn(2) == 0 {
 				sizes[0] = 0
 			}
+			if r.Intn(40) == 0 {
+				// the longest run of (0, nil) answers read() sits out: 1 read + 100 retries, the last one delivers
+				at := r.Intn(len(sizes) + 1)
+				sizes = append(sizes[:at:at], append(make([]int, 100), append([]int{1 + r.Intn(3)}, sizes[at:]...)...)...)
+				for at > 0 && sizes[at-1] == 0 { // keep the run at exactly 100
+					sizes[at-1] = 1
+					at--
+				}
+				ctx.Hist("zero-reads-run", "100")
+			}
 			c.refills = append(c.refills, sizes)
 		}
 		c.batches = []int{1 + r.Intn(12)}
@@ -2078,19 +2178,11 @@ func c09ZeroChecks(ctx *core.Ctx, r *rand.Rand, d *drv.Driver, p *c09Pending, n 
 		}
 		if key, what := c09Oracle(oc, rows); key != "" {
 			ctx.Fail("L1", fmt.Sprintf("zero-row-read readers=%d %s", min(k, 3), key), "MergeRowReaders over a source that answers (0, nil): "+what, map[string]any{"case": text, "output": strings.Join(batches, "|")})
-			continue
 		}
 		{
-			// (0, nil) answers are skipped: same as the main mirror without the zero entries
-			nz := make([][]int, len(c.refills))
-			for j, sz := range c.refills {
-				for _, x := range sz {
-					if x != 0 {
-						nz[j] = append(nz[j], x)
-					}
-				}
-			}
-			req := fmt.Sprintf("merge.run %s %s %s", c09Lists(c.keys, func(x int64) string { return strconv.FormatInt(x, 10) }), core.JoinInts(used), c09Lists(nz, strconv.Itoa))
+			// (0, nil) answers are skipped: same as the main mirror on the streams without their zero
+			// entries (the driver squashes them, MergeRetry.lean)
+			req := fmt.Sprintf("merge.runr %s %s %s", c09Lists(c.keys, func(x int64) string { return strconv.FormatInt(x, 10) }), core.JoinInts(used), c09Lists(c.refills, strconv.Itoa))
 			want := "ok 1 " + strings.Join(batches, "|")
 			p.reqs = append(p.reqs, req)
 			p.pend = append(p.pend, func(ans string) {
@@ -2270,7 +2362,7 @@ func c09ParseCanon(text string) (*c09Case, error) {
 // ---------------------------------------------------------------- entry point
 
 func RunC09(ctx *core.Ctx) {
-	ctx.SetRule("k in 0..9 sorted inputs (empty, disjoint, touching, nested, identical, staggered, random key ranges; duplicates within and across inputs; asc/desc; nullable keys nulls first/last; one to three key columns, merge by a prefix or by all; optionally a repeated payload column (lists of 0-4 values) that sorts before the key columns by name; forward SeekToRow histories on the merged rows; large compound-key files whose first key column is shared by many rows across row-group and page boundaries) as sorted Buffers and as files (PageBufferSize 1..1MiB, with page index) x read batch sizes 1..300 x MergeRowGroups.Rows / MergeRowReaders / Writer.WriteRowGroup / CopyRows, with and without DropDuplicatedRows; chunked-source MergeRowReaders runs compared call by call with the Lean mirror; runLength and DedupeRowReader against mirror and spec; exhaustive small scope. Distinct by canonical case text, non-trivial = at least two non-empty inputs (merges) / at least two rows or batches (runLength, dedupe)")
+	ctx.SetRule("k in 0..9 sorted inputs (empty, disjoint, touching, nested, identical, staggered, random key ranges; duplicates within and across inputs; asc/desc; nullable keys nulls first/last; one to three key columns, merge by a prefix or by all; optionally a repeated payload column (lists of 0-4 values) that sorts before the key columns by name; forward SeekToRow histories on the merged rows; large compound-key files whose first key column is shared by many rows across row-group and page boundaries) as sorted Buffers and as files (PageBufferSize 1..1MiB, with page index) x read batch sizes 1..300 x MergeRowGroups.Rows / MergeRowReaders / Writer.WriteRowGroup / CopyRows, with and without DropDuplicatedRows; trees of nested merges (the result of a merge as an input of another, depth <= 3, MergeRowGroups and MergeRowReaders); chunked-source MergeRowReaders runs, also with sources answering (0, nil), compared call by call with the Lean mirror; runLength and DedupeRowReader against mirror and spec; exhaustive small scope. Distinct by canonical case text, non-trivial = at least two non-empty inputs (merges) / at least two rows or batches (runLength, dedupe)")
 
 	// F12 as a fixed corpus-like case so that it is reported deterministically
 	fixed := []*c09Case{
